@@ -67,6 +67,7 @@ var trTargets = []trTarget{
 	{"peering", "LinkFrame", "Version"},
 	{"peering", "LinkFrame", "SequenceNum"},
 	{"peering", "LinkFrame", "SetSequenceNum"},
+	{"m", "SwitchPath", "CalculateTotals"},
 }
 
 type kindT struct {
@@ -183,6 +184,9 @@ type translator struct {
 	resNames  []types.Object // named results (nil entries when unnamed)
 	errCodes  map[string]int
 	errOrder  []string
+	hopsFld   map[string]bool   // struct fields of type []SwitchHop: a list of (Delay, ForwardLabel, ReturnLabel)
+	rangeObj  types.Object      // the value variable of the range loop being translated
+	rangeFlds map[string]string // its fields -> bound names
 }
 
 func typeText(fset *token.FileSet, e ast.Expr) string { return nodeText(fset, e) }
@@ -449,6 +453,9 @@ func (t *translator) fieldOf(e ast.Expr) (string, bool) {
 
 func (t *translator) exprKind(e ast.Expr) kindT {
 	e = ast.Unparen(e)
+	if _, ok := t.rangeField(e); ok {
+		return kindT{"N", 16}
+	}
 	if f, ok := t.fieldOf(e); ok {
 		if k, ok := t.fkind[f]; ok {
 			return k
@@ -510,6 +517,9 @@ func (t *translator) expr(e ast.Expr) string {
 		}
 		trFail("identifier %s is not a parameter, local or constant", x.Name)
 	case *ast.SelectorExpr:
+		if n, ok := t.rangeField(x); ok {
+			return n
+		}
 		if f, ok := t.fieldOf(x); ok {
 			k, ok := t.fkind[f]
 			if !ok || k.k == "atomic" {
@@ -709,8 +719,31 @@ func (t *translator) call(c *ast.CallExpr) string {
 			}
 		}
 	}
+	if id, ok := c.Fun.(*ast.Ident); ok && id.Name == "len" && len(c.Args) == 1 {
+		if f, ok := t.fieldOf(c.Args[0]); ok && t.hopsFld[f] {
+			t.used[f] = true
+			return "(Z.of_nat (length f_" + f + "))"
+		}
+	}
 	trFail("unsupported call %s", nodeText(t.p.fset, c))
 	return ""
+}
+
+// rangeField: hop.Delay / hop.ForwardLabel / hop.ReturnLabel of the current range variable
+func (t *translator) rangeField(e ast.Expr) (string, bool) {
+	sel, ok := e.(*ast.SelectorExpr)
+	if !ok || t.rangeObj == nil {
+		return "", false
+	}
+	id, ok := sel.X.(*ast.Ident)
+	if !ok || t.p.info.Uses[id] != t.rangeObj {
+		return "", false
+	}
+	n, ok := t.rangeFlds[sel.Sel.Name]
+	if !ok {
+		trFail("field %s of the range variable is not translated", sel.Sel.Name)
+	}
+	return n, true
 }
 
 // ---------- statements (continuation style) ----------
@@ -1062,6 +1095,72 @@ func (t *translator) stmts(list []ast.Stmt, k func(d int) string, d int) string 
 		}
 		return pre + fmt.Sprintf("%sif %s then\n%s\n%selse\n%s", ind(d), c,
 			t.stmts(x.Body.List, next, d+1), ind(d), t.stmts(els, next, d+1))
+	case *ast.RangeStmt:
+		// for _, hop := range recv.Hops { body }: a fold over the hop list; the locals the body assigns
+		// are the accumulator (same names: the lets shadow)
+		f, ok := t.fieldOf(x.X)
+		if !ok || !t.hopsFld[f] || t.rangeObj != nil {
+			trFail("unsupported range statement %s", nodeText(t.p.fset, x.X))
+		}
+		if id, ok := x.Key.(*ast.Ident); x.Key != nil && (!ok || id.Name != "_") {
+			trFail("range with an index variable")
+		}
+		vid, ok := x.Value.(*ast.Ident)
+		if !ok || x.Tok != token.DEFINE {
+			trFail("range without a value variable")
+		}
+		t.used[f] = true
+		var accs []types.Object
+		seenAcc := map[types.Object]bool{}
+		ast.Inspect(x.Body, func(n ast.Node) bool {
+			var lhs []ast.Expr
+			switch s := n.(type) {
+			case *ast.AssignStmt:
+				if s.Tok == token.DEFINE {
+					trFail("declaration inside a range body")
+				}
+				lhs = s.Lhs
+			case *ast.IncDecStmt:
+				lhs = []ast.Expr{s.X}
+			case *ast.BranchStmt, *ast.ReturnStmt, *ast.ForStmt, *ast.RangeStmt:
+				trFail("unsupported statement inside a range body")
+			}
+			for _, l := range lhs {
+				id, ok := l.(*ast.Ident)
+				if !ok {
+					trFail("range body assigns to %s", nodeText(t.p.fset, l))
+				}
+				if o := t.p.info.Uses[id]; o != nil && !seenAcc[o] {
+					if _, known := t.names[o]; !known {
+						trFail("range body assigns to an undeclared variable")
+					}
+					seenAcc[o] = true
+					accs = append(accs, o)
+				}
+			}
+			return true
+		})
+		if len(accs) == 0 {
+			trFail("range body without effect")
+		}
+		var an []string
+		for _, o := range accs {
+			an = append(an, t.names[o])
+		}
+		tuple := an[0]
+		if len(an) > 1 {
+			tuple = "(" + strings.Join(an, ", ") + ")"
+		}
+		pat := tuple
+		if len(an) > 1 {
+			pat = "'" + tuple
+		}
+		t.rangeObj = t.p.info.Defs[vid]
+		t.rangeFlds = map[string]string{"Delay": t.fresh("hop_Delay"), "ForwardLabel": t.fresh("hop_ForwardLabel"), "ReturnLabel": t.fresh("hop_ReturnLabel")}
+		body := t.stmts(x.Body.List, func(d int) string { return ind(d) + tuple }, d+2)
+		hp := fmt.Sprintf("'(%s, %s, %s)", t.rangeFlds["Delay"], t.rangeFlds["ForwardLabel"], t.rangeFlds["ReturnLabel"])
+		t.rangeObj, t.rangeFlds = nil, nil
+		return fmt.Sprintf("%slet %s := fold_left (fun %s %s =>\n%s) f_%s %s in\n%s", ind(d), pat, pat, hp, body, f, tuple, next(d))
 	case *ast.SwitchStmt:
 		if x.Init != nil {
 			return t.stmts([]ast.Stmt{x.Init, &ast.SwitchStmt{Tag: x.Tag, Body: x.Body}}, next, d)
@@ -1144,7 +1243,7 @@ func translateFuncPass(tg trTarget, used, mutated map[string]bool) (name, def, d
 	if fn == nil {
 		return name, "", "", fmt.Errorf("function not found")
 	}
-	t := &translator{p: p, fn: fn, fkind: map[string]kindT{}, used: used, mutated: mutated, bytefld: map[string]bool{},
+	t := &translator{p: p, fn: fn, fkind: map[string]kindT{}, used: used, mutated: mutated, bytefld: map[string]bool{}, hopsFld: map[string]bool{},
 		names: map[types.Object]string{}, taken: map[string]bool{}, kinds: map[types.Object]kindT{}, errCodes: map[string]int{}}
 	var params []string
 	if fn.Recv != nil {
@@ -1164,6 +1263,10 @@ func translateFuncPass(tg trTarget, used, mutated map[string]bool) (name, def, d
 					t.fields = append(t.fields, n.Name)
 					if typeText(p.fset, f.Type) == "[]byte" {
 						t.bytefld[n.Name] = true
+						continue
+					}
+					if typeText(p.fset, f.Type) == "[]SwitchHop" {
+						t.hopsFld[n.Name] = true
 						continue
 					}
 					if k, ok := t.kindOfTypeExpr(f.Type); ok {
@@ -1225,7 +1328,9 @@ func translateFuncPass(tg trTarget, used, mutated map[string]bool) (name, def, d
 	t.fields = t.allFields()
 	var fparams []string
 	for _, f := range t.fields {
-		if t.used[f] {
+		if t.used[f] && t.hopsFld[f] {
+			fparams = append(fparams, fmt.Sprintf("(f_%s : list (N * N * N))", f))
+		} else if t.used[f] {
 			fparams = append(fparams, fmt.Sprintf("(f_%s : %s)", f, t.fkind[f].coqType()))
 		}
 	}
